@@ -150,8 +150,10 @@ def VS3():
     """List-typed, float, boolean properties and Int!/nullable mixes for operator typing."""
     props = {"id": "Int!", "val": "Int", "req": "Int!", "f": "Float", "s": "String", "sreq": "String!", "flag": "Boolean",
              "ints": "[Int]", "intsreq": "[Int!]!", "strs": "[String!]", "nested": "[[Int!]]"}
-    types = {"Item": dict(kind="type", props=props, edges={"rel": {"to": "Item"}, "one": {"to": "Item", "many": False}})}
-    root = {"Items": {"to": "Item", "sdl": "[Item!]!"}}
+    types = {"Item": dict(kind="type", props=props, edges={"rel": {"to": "Item", "params": {"lim": {"type": "Int!"}, "pick": {"type": "[String!]"}, "w": {"type": "Float", "default": F2(3)}}},
+                                                         "one": {"to": "Item", "many": False}})}
+    # `rel` has a required parameter, a nullable list parameter without default and a float parameter with a default; the entry point a nullable String
+    root = {"Items": {"to": "Item", "sdl": "[Item!]!", "params": {"label": {"type": "String"}}}}
     return Schema("VS3", "Query", types, root)
 
 SCHEMAS = {"VS1": VS1, "VS2": VS2, "VS3": VS3}
@@ -160,7 +162,7 @@ SCHEMAS = {"VS1": VS1, "VS2": VS2, "VS3": VS3}
 def value_pool(ty, rng=None):
     t = T(ty); base = t["base"]; depth = len(t["mods"]) - 1
     if depth == 0:
-        pool = {"Int": [I(1), I(2), I(2), I(3)], "String": [S("a"), S("ab"), S("b"), S("")], "Float": [F2(1), F2(2), F2(3)],
+        pool = {"Int": [I(-2), I(0), I(1), I(2), I(2), I(3)], "String": [S("a"), S("ab"), S("b"), S("")], "Float": [F2(1), F2(2), F2(3)],
                 "Boolean": [B(True), B(False)]}[base]
         return ([NULL] if t["mods"][0] else []) + pool
     inner = ty.strip()
